@@ -2,7 +2,12 @@ use crate::bases::*;
 use std::borrow::Cow;
 use std::io::Read;
 use std::mem::ManuallyDrop;
+#[cfg(not(jubako_verif_loom))]
 use std::sync::{Arc, Condvar, Mutex, OnceLock};
+#[cfg(jubako_verif_loom)]
+use crate::bases::verif_sync::{Condvar, Mutex};
+#[cfg(jubako_verif_loom)]
+use std::sync::{Arc, OnceLock};
 
 /*
 SyncVec is mostly a Arc<Vec<u8>> where the only protected part is its length
@@ -39,6 +44,33 @@ struct SyncVecWr {
     data: ManuallyDrop<Vec<u8>>,
     total_size: usize,
     decoded: Arc<(Mutex<DecodeProgress>, Condvar)>,
+    #[cfg(jubako_verif_loom)]
+    shadow: ShadowCells,
+}
+
+/// One loom cell per byte of the shared buffer: makes the (unsynchronized) accesses to the
+/// buffer visible to loom's race detector. Verification only.
+#[cfg(jubako_verif_loom)]
+#[derive(Clone)]
+struct ShadowCells(Arc<Vec<loom::cell::UnsafeCell<()>>>);
+
+#[cfg(jubako_verif_loom)]
+impl ShadowCells {
+    fn new(size: usize) -> Self {
+        Self(Arc::new(
+            (0..size).map(|_| loom::cell::UnsafeCell::new(())).collect(),
+        ))
+    }
+    fn written(&self, begin: usize, end: usize) {
+        for cell in &self.0[begin..end] {
+            cell.with_mut(|_| ());
+        }
+    }
+    fn read(&self, end: usize) {
+        for cell in &self.0[..end] {
+            cell.with(|_| ());
+        }
+    }
 }
 
 unsafe impl Send for SyncVecWr {}
@@ -48,6 +80,8 @@ struct SyncVecRd {
     buffer: *const u8,
     total_size: usize,
     decoded: Arc<(Mutex<DecodeProgress>, Condvar)>,
+    #[cfg(jubako_verif_loom)]
+    shadow: ShadowCells,
 }
 
 unsafe impl Send for SyncVecRd {}
@@ -79,6 +113,8 @@ impl SyncVecRd {
     #[inline]
     fn slice(&self) -> &[u8] {
         let size = self.current_size();
+        #[cfg(jubako_verif_loom)]
+        self.shadow.read(size);
         unsafe { std::slice::from_raw_parts(self.buffer, size) }
     }
 }
@@ -87,17 +123,23 @@ fn create_sync_vec(size: usize) -> (SyncVecWr, SyncVecRd) {
     let buffer = Arc::new(Vec::with_capacity(size));
     let decoded = Arc::new((Mutex::new(DecodeProgress::default()), Condvar::new()));
     let buffer_ptr = buffer.as_ptr();
+    #[cfg(jubako_verif_loom)]
+    let shadow = ShadowCells::new(size);
     let rd = SyncVecRd {
         _arc: Arc::clone(&buffer),
         buffer: buffer_ptr,
         total_size: size,
         decoded: Arc::clone(&decoded),
+        #[cfg(jubako_verif_loom)]
+        shadow: shadow.clone(),
     };
     let rw = SyncVecWr {
         _arc: buffer,
         data: ManuallyDrop::new(unsafe { Vec::from_raw_parts(buffer_ptr as *mut u8, 0, size) }),
         total_size: size,
         decoded,
+        #[cfg(jubako_verif_loom)]
+        shadow,
     };
     (rw, rd)
 }
@@ -125,6 +167,10 @@ fn decode_to_end<T: Read + Send>(
             .by_ref()
             .take(size as u64)
             .read_to_end(&mut buffer.data);
+        #[cfg(jubako_verif_loom)]
+        if let Ok(read) = &read {
+            buffer.shadow.written(uncompressed, uncompressed + read);
+        }
         let (lock, cvar) = &*buffer.decoded;
         let mut progress = lock.lock().unwrap();
         match read {
@@ -165,6 +211,17 @@ impl SeekableDecoder {
                 // Error is reported to the readers through the shared progress.
                 let _ = decode_to_end(decoder, write_hand, 4 * 1024);
             });
+        Self { buffer: read_hand }
+    }
+
+    /// As `new` but the decoder runs in a loom thread and publishes its progress every
+    /// `chunk_size` bytes. Verification only.
+    #[cfg(jubako_verif_loom)]
+    pub fn new_verif<T: Read + Send + 'static>(decoder: T, size: ASize, chunk_size: usize) -> Self {
+        let (write_hand, read_hand) = create_sync_vec(size.into_usize());
+        loom::thread::spawn(move || {
+            let _ = decode_to_end(decoder, write_hand, chunk_size);
+        });
         Self { buffer: read_hand }
     }
 
